@@ -29,6 +29,12 @@ CONTAINMENT_TOLERANCE = 1e-7
 CONTAINMENT_TOLERANCE_CAP = 0.5
 
 
+# the redundancy and containment tests compare an optimum with a bound: the solver's default tolerances (1e-7 on
+# the internally scaled problem) let it stop at points that are far from optimal when coefficients differ by many
+# orders of magnitude or two rows are almost parallel
+_TIGHT = {"primal_feasibility_tolerance": 1e-10, "dual_feasibility_tolerance": 1e-10}  # noqa: WPS407
+
+
 def _solve_bounded_lp(c: Any, a_ub: Any, b_ub: Any) -> Any:
     """Solve an LP whose objective is bounded by construction.
 
@@ -36,7 +42,7 @@ def _solve_bounded_lp(c: Any, a_ub: Any, b_ub: Any) -> Any:
     such a problem as unbounded or infeasible, or returns an inaccurate optimum; in those cases it is
     solved again without presolve.
     """
-    res = linprog(c=c, A_ub=a_ub, b_ub=b_ub, bounds=(None, None))
+    res = linprog(c=c, A_ub=a_ub, b_ub=b_ub, bounds=(None, None), options=_TIGHT)
     trusted = res["status"] == 0
     if trusted and "ineqlin" in res:
         # an optimum rebuilt by the presolve from astronomically large variable values can be far off: the
@@ -44,14 +50,14 @@ def _solve_bounded_lp(c: Any, a_ub: Any, b_ub: Any) -> Any:
         dual = float(np.dot(res["ineqlin"]["marginals"], b_ub))
         trusted = abs(dual - res["fun"]) <= 1e-9 * (1 + abs(res["fun"]))  # noqa: WPS432 magic number
     if not trusted:
-        res = linprog(c=c, A_ub=a_ub, b_ub=b_ub, bounds=(None, None), options={"presolve": False})
+        res = linprog(c=c, A_ub=a_ub, b_ub=b_ub, bounds=(None, None), options=dict(_TIGHT, presolve=False))
     if res["status"] != 0:
         # a very small objective next to large constraint coefficients is still reported as unbounded:
         # solve for the objective scaled to unit size
         scale = float(np.max(np.abs(c)))
         if scale > 0:
             scaled = linprog(
-                c=np.asarray(c) / scale, A_ub=a_ub, b_ub=b_ub, bounds=(None, None), options={"presolve": False}
+                c=np.asarray(c) / scale, A_ub=a_ub, b_ub=b_ub, bounds=(None, None), options=dict(_TIGHT, presolve=False)
             )
             if scaled["status"] == 0:
                 scaled["fun"] = scaled["fun"] * scale
